@@ -14,6 +14,12 @@ LEVEL_TEXT = ("Proof: over the reals the coded information gain is [sum(ln rA - 
               "average ranks with ties sum to c(c+1)/2, r_plus + r_minus = c(c+1)/2, T <= mn, and negating all differences "
               "(float subtraction included, via Soft64 sign symmetry) leaves count, T, mn and the tie-corrected variance term "
               "unchanged; p = 2 sf(|z|) is in [0,1]; the binary variant is the T formulas on the distinct active bins. "
+              "Public level: the variance of Eq. 18 is non-negative and zero exactly for a constant log-ratio; the interval "
+              "contains the gain; the result does not depend on the order of the events; swap / self-comparison / Eq. 17 for "
+              "forecast objects (stored rates x scale factor, optionally divided by the horizon in days, looked up at the "
+              "events' bins); with a common horizon scale=True keeps the log-rate differences and divides the totals; the binary "
+              "variant equals the paired test when no bin holds two events; the W-test swap invariance is derived from the "
+              "float64 operations X1-X2 and (N1-N2)/N themselves. "
               "Tied to the code by a correspondence on generated forecasts/catalogs (rank arithmetic exact, statistics to 1e-9).")
 LEVEL_NOTE = ("T-test theorems are over the reals (Float instance executed); Student-t quantile and normal survival function are "
               "parameters supplied by scipy; float rounding of log/sqrt is outside the theorems. With scale=True the code scales "
@@ -28,9 +34,16 @@ THEOREMS = ["PairedTests.ig_formula", "PairedTests.var_eq_sample_variance", "Pai
             "PairedTests.rplus_add_rminus", "PairedTests.w_T_le_mn", "PairedTests.w_se_pos", "PairedTests.w_z_nonpos",
             "PairedTests.w_swap_invariant",
             "PairedTests.w_swap_invariant_xm", "PairedTests.w_p_bounds", "PairedTests.w_zp_swap_invariant",
-            "PairedTests.active_bin_variant"]
+            "PairedTests.active_bin_variant",
+            # Properties/C08_Public.lean
+            "PairedTests.var_nonneg", "PairedTests.var_eq_zero_iff", "PairedTests.ci_contains_gain",
+            "PairedTests.t_event_order_irrelevant", "PairedTests.public_t_swap", "PairedTests.public_t_self_zero",
+            "PairedTests.public_t_gain", "PairedTests.public_t_scale_same_horizon",
+            "PairedTests.binary_eq_paired_of_distinct", "PairedTests.w_public_swap",
+            "PairedTests.w_public_self_degenerate"]
 TRUSTED = ["Lean 4.33 kernel", "axioms: propext, Classical.choice, Quot.sound at most",
            "scipy.stats.t.ppf and scipy.stats.norm.sf are parameters of the model (norm.sf in [0,1/2] on [0,inf) is a hypothesis)",
+           "scipy.stats.wilcoxon(zero_method='wilcox', correction=False, method='approx') is used as a third opinion on T and p",
            "scipy.stats.rankdata(method='average') is modelled by #{<} + (#{=}+1)/2; numpy.unique(return_counts) by dedup+count",
            "Soft64.fl64 is IEEE binary64 round-to-nearest-even (d = x - m); validated against numpy on every run",
            "float rounding of log / sqrt / sums is outside the theorems (1e-9 comparison, condition-aware for the variance)",
@@ -38,7 +51,9 @@ TRUSTED = ["Lean 4.33 kernel", "axioms: propext, Classical.choice, Quot.sound at
 RULE = ("pairs of positive-rate GriddedForecasts on a common CartesianGrid2D (1..6 x 1..5 cells x 1..3 magnitude bins; random, "
         "proportional, dyadic/permuted and partially identical rates), catalogs of 2..200 in-region events drawn from few "
         "cells (repeated cells => exact ties), alpha in {0.01,0.05,0.1} or U(0,1), scale on/off, equal or different "
-        "horizons; every test called A/B, B/A and A/A. A case is non-trivial when the differences contain a tie, a zero or "
+        "horizons; forecast objects rescaled with .scale(s) before the tests; events anywhere inside their cell and "
+        "magnitude bin (exactly on the lower magnitude edge, above the open top edge); stored rates in C / Fortran order, "
+        "strided views, integer dtype; every test called A/B, B/A and A/A. A case is non-trivial when the differences contain a tie, a zero or "
         "both signs; distinct by the full input")
 
 DT = [('id', 'S256'), ('origin_time', '<i8'), ('latitude', '<f8'), ('longitude', '<f8'), ('depth', '<f8'),
@@ -115,9 +130,31 @@ def _gen_case(rng):
     scale = rng.random() < 0.4
     days_a = rng.choice([1, 30, 365, 366, 1826])
     days_b = days_a if rng.random() < 0.8 else rng.choice([1, 30, 365])
-    return dict(kind=kind, nx=nx, ny=ny, nm=nm, a=[float(v).hex() for v in a.ravel()],
+    case = dict(kind=kind, nx=nx, ny=ny, nm=nm, a=[float(v).hex() for v in a.ravel()],
                 b=[float(v).hex() for v in b.ravel()], ev=[list(e) for e in ev], alpha=alpha, scale=scale,
                 days_a=days_a, days_b=days_b)
+    # --- input classes of the public functions (round 3) ---
+    # the forecast objects were rescaled with .scale(s) before the tests (rates = stored rates x factor)
+    if rng.random() < 0.35:
+        pool = [0.5, 2.0, 3, 1 / 365.25, 0.1, 10.0]
+        sa = rng.choice(pool)
+        sb = sa if rng.random() < 0.5 else rng.choice(pool + [1])
+        case["fscale"] = [sa, sb]
+    # events anywhere inside their cell / magnitude bin (not only on midpoints); the top magnitude bin is open above
+    if rng.random() < 0.6:
+        case["pos"] = [[round(rng.uniform(0.04, 0.96), 6), round(rng.uniform(0.04, 0.96), 6),
+                        (0.0 if rng.random() < 0.12 else round(rng.uniform(0.02, 0.48), 6))   # 0.0: exactly on the lower edge
+                        + (rng.choice([0, 0, 0.5, 2.5]) if m == nm - 1 else 0)]
+                       for _, m in ev]
+    # memory layout of the stored rates; integer rates
+    lay = rng.random()
+    case["layout"] = "C" if lay < 0.55 else ("F" if lay < 0.75 else ("strided" if lay < 0.9 else "C"))
+    if kind == "random" and rng.random() < 0.25:
+        ai = g.integers(1, 10, (nc, nm)); bi = g.integers(1, 10, (nc, nm))
+        case["a"] = [float(v).hex() for v in ai.ravel()]
+        case["b"] = [float(v).hex() for v in bi.ravel()]
+        case["layout"] = "int64"
+    return case
 
 
 def _build(case):
@@ -127,20 +164,36 @@ def _build(case):
     region, mags = _region(nx, ny, nm)
     a = numpy.array([float.fromhex(v) for v in case["a"]]).reshape(nx * ny, nm)
     b = numpy.array([float.fromhex(v) for v in case["b"]]).reshape(nx * ny, nm)
+
+    def laid(x):
+        lay = case.get("layout", "C")
+        if lay == "F":
+            return numpy.asfortranarray(x)
+        if lay == "strided":
+            big = numpy.full((x.shape[0] * 2, x.shape[1] * 2), 7.0)
+            big[1::2, ::2] = x
+            return big[1::2, ::2]
+        if lay == "int64":
+            return x.astype(numpy.int64)
+        return x
     st = datetime.datetime(2020, 1, 1)
-    fa = GriddedForecast(start_time=st, end_time=st + datetime.timedelta(days=case["days_a"]), data=a, region=region,
+    fa = GriddedForecast(start_time=st, end_time=st + datetime.timedelta(days=case["days_a"]), data=laid(a), region=region,
                          magnitudes=mags, name="A")
-    fb = GriddedForecast(start_time=st, end_time=st + datetime.timedelta(days=case["days_b"]), data=b, region=region,
+    fb = GriddedForecast(start_time=st, end_time=st + datetime.timedelta(days=case["days_b"]), data=laid(b), region=region,
                          magnitudes=mags, name="B")
+    if case.get("fscale"):
+        fa.scale(case["fscale"][0])
+        fb.scale(case["fscale"][1])
     ev = case["ev"]
     arr = numpy.zeros(len(ev), dtype=DT)
     arr['id'] = numpy.arange(len(ev)).astype('S')
     arr['origin_time'] = 1_580_000_000_000 + numpy.arange(len(ev)) * 1000
     # cell c = ix*ny + iy has origin (ix*0.1, iy*0.1); events sit on the cell's midpoint, magnitudes inside the bin
-    arr['longitude'] = [((c // ny) + 0.5) * 0.1 for c, _ in ev]
-    arr['latitude'] = [((c % ny) + 0.5) * 0.1 for c, _ in ev]
+    pos = case.get("pos") or [[0.5, 0.5, 0.25]] * len(ev)
+    arr['longitude'] = [((c // ny) + p[0]) * 0.1 for (c, _), p in zip(ev, pos)]
+    arr['latitude'] = [((c % ny) + p[1]) * 0.1 for (c, _), p in zip(ev, pos)]
     arr['depth'] = 10.0
-    arr['magnitude'] = [4.0 + 0.5 * m + 0.25 for _, m in ev]
+    arr['magnitude'] = [4.0 + 0.5 * m + p[2] for (_, m), p in zip(ev, pos)]
     cat = CSEPCatalog(data=arr, region=region)
     return fa, fb, cat, a, b
 
@@ -208,7 +261,9 @@ def _ref_w(x, m):
 def _check(run, drv, pending, case, tag):
     import scipy.stats
     from csep.core import poisson_evaluations as pe, binomial_evaluations as be
-    fa, fb, cat, a, b = _build(case)
+    fa, fb, cat, a0, b0 = _build(case)
+    fsc = case.get("fscale") or [1, 1]
+    a, b = a0 * fsc[0], b0 * fsc[1]          # the rates of the forecast objects: stored rates x the factor of .scale()
     alpha, scale = case["alpha"], case["scale"]
     n = len(case["ev"])
     nm = case["nm"]
@@ -280,6 +335,17 @@ def _check(run, drv, pending, case, tag):
             run.oracle_failure(short, f"W-test changes under a swap: z {zab!r} vs {zba!r}, p {pab!r} vs {pba!r}")
         if w["rp"] + w["rm"] != Fraction(w["count"] * (w["count"] + 1), 2):
             run.oracle_failure(short, "rank sums do not add to c(c+1)/2")
+        # third opinion: SciPy's own signed-rank test with the options the code's formulas correspond to
+        # (zeros discarded, no continuity correction, normal approximation, two-sided)
+        try:
+            sw = scipy.stats.wilcoxon(numpy.asarray(w["d"]), zero_method="wilcox", correction=False,
+                                      alternative="two-sided", method="approx")
+            if not (_same(float(sw.statistic), float(w["t2"]) / 2) and _same(float(sw.pvalue), pab, 1e-9, 1e-300)):
+                run.oracle_failure(short, f"W-test p={pab!r}, T={float(w['t2']) / 2!r} but scipy.stats.wilcoxon(wilcox, no "
+                                          f"correction, approx) gives p={float(sw.pvalue)!r}, T={float(sw.statistic)!r}")
+            run.count("w:scipy-wilcoxon-agrees")
+        except (TypeError, ValueError):
+            run.count("w:scipy-wilcoxon-unavailable")
     else:
         run.count("w:no-difference-from-median (outside the quantifier)")
     # ---- binary variant: a result, the T formulas on the distinct active bins, antisymmetry
@@ -307,6 +373,14 @@ def _check(run, drv, pending, case, tag):
         if not (_same(bba["ig"], -bab["ig"]) and _same(bba["t"], -bab["t"])
                 and _same(bba["lower"], -bab["upper"]) and _same(bba["upper"], -bab["lower"])):
             run.oracle_failure(short, f"binary swap does not negate/mirror: AB={bab!r} BA={bba!r}")
+        # no bin holds two events and no division by the horizon: the binary variant IS the paired test
+        # (theorem binary_eq_paired_of_distinct) - compared on the implementation's own two results
+        if nact == n and not scale and not degenerate:
+            if not (_same(bab["ig"], tab["ig"], 1e-9, 1e-9 * s_ig) and _same(bab["tcrit"], tab["tcrit"])
+                    and _same(bab["lower"], tab["lower"], cond_tol, cond_tol * abs(tab["upper"] - tab["ig"]) + 1e-9 * s_ig)
+                    and _same(bab["upper"], tab["upper"], cond_tol, cond_tol * abs(tab["upper"] - tab["ig"]) + 1e-9 * s_ig)):
+                run.oracle_failure(short, f"all events in distinct bins, yet binary {bab!r} differs from paired {tab!r}")
+            run.count("binary:distinct-bins-equals-paired")
     else:
         run.count("binary:one-active-bin (N-1 = 0, nan result returned)")
     # ---- bookkeeping
@@ -330,7 +404,25 @@ def _check(run, drv, pending, case, tag):
         i_b = drv.ask(f"c08_bin {blist(a.ravel())} {blist(b.ravel())} "
                       f"{','.join(str(c * nm + mm) for c, mm in case['ev'])} "
                       f"{bits(out_nf(fa, scale, case['days_a']))} {bits(out_nf(fb, scale, case['days_b']))} {bits(tcb)}")
-    pending.append((short, i_t, i_w, i_b, tab, cond_tol, w, zab, bab, act, degenerate, bdeg))
+    flat_ev = ",".join(str(c * nm + mm) for c, mm in case["ev"])
+    pubargs = (f"{blist(a0.ravel())} {bits(fsc[0])} {case['days_a']} {blist(b0.ravel())} {bits(fsc[1])} {case['days_b']} "
+               f"{flat_ev} {1 if scale else 0}")
+    i_pt = drv.ask(f"c08_pubt {pubargs} {bits(tc)}")
+    i_pb = drv.ask(f"c08_pubb {pubargs} {bits(tcb)}") if nact >= 2 else None
+    la = numpy.log(numpy.asarray(ia, dtype=float)); lb = numpy.log(numpy.asarray(ib, dtype=float))
+    i_pw = drv.ask(f"c08_pubw {','.join(frac(float(v)) for v in la)} {','.join(frac(float(v)) for v in lb)} "
+                   f"{frac(n1)} {frac(n2)} {frac(float(n))}")
+    if case.get("fscale"):
+        run.count("fscale")
+    if case.get("pos"):
+        run.count("events-off-midpoint")
+    run.count("layout:" + case.get("layout", "C"))
+    pending.append((short, i_t, i_w, i_b, tab, cond_tol, w, zab, bab, act, degenerate, bdeg, i_pt, i_pb, i_pw,
+                    (out_nf(fa, scale, case["days_a"]), out_nf(fb, scale, case["days_b"]))))
+
+
+def short_n(short):
+    return len(short.get("ev", [])) or 1
 
 
 def out_nf(f, scale, days):
@@ -341,40 +433,53 @@ def out_nf(f, scale, days):
 def _flush(run, drv, pending):
     out = drv.run()
     bitexact = [0, 0]
-    for short, i_t, i_w, i_b, tab, cond_tol, w, zab, bab, act, degenerate, bdeg in pending:
-        # T
-        try:
-            ig, t, lo, up, var = [unbits(s) for s in out[i_t].split()]
-        except Exception:
-            run.mismatch(short, tab, out[i_t]); continue
-        ok = _same(tab["ig"], ig, 1e-9, 1e-9 * max(abs(ig), 1e-300) + 1e-12)
-        if not degenerate:
-            half = abs(up - ig)
-            ok = ok and _same(tab["t"], t, cond_tol, 1e-12) and _same(tab["lower"], lo, cond_tol, cond_tol * half + 1e-12) \
-                and _same(tab["upper"], up, cond_tol, cond_tol * half + 1e-12)
-        if not ok:
-            run.mismatch(short, tab, dict(ig=ig, t=t, lower=lo, upper=up))
-        # W: exact statistics, z to 1e-9 (bit-exactness recorded)
-        try:
-            c, t2, mn4, se24, zb = out[i_w].split()
-            okw = (int(c) == w["count"] and Fraction(t2) == w["t2"] and Fraction(mn4) == w["mn4"]
-                   and Fraction(se24) == w["se24"])
-            zm = unbits(zb)
-        except Exception:
-            okw, zm = False, None
-        if w["count"] >= 1:
-            if not (okw and _same(zab, zm)):
-                run.mismatch(short, dict(z=zab, count=w["count"], t2=str(w["t2"]), mn4=str(w["mn4"]), se24=str(w["se24"])),
-                             out[i_w])
-            bitexact[1] += 1
-            if zm is not None and bits(zm) == bits(zab):
-                bitexact[0] += 1
-        elif not okw:
-            run.mismatch(short, dict(count=0), out[i_w])
-        # binary
-        if i_b is not None:
+    for short, i_t, i_w, i_b, tab, cond_tol, w, zab, bab, act, degenerate, bdeg, i_pt, i_pb, i_pw, totals in pending:
+        # T: array-level model (rates and totals from the implementation) and public model (rates looked up and totals
+        # summed by the model from the stored rates, the .scale() factor and the horizon)
+        for idx in (i_t, i_pt):
             try:
-                toks = out[i_b].split()
+                toks = [unbits(s) for s in out[idx].split()]
+                ig, t, lo, up, var = toks[:5]
+            except Exception:
+                run.mismatch(short, tab, out[idx]); continue
+            # the gain subtracts the totals: its rounding is relative to (|N_A| + |N_B|)/N, not to the gain
+            mag = (abs(totals[0]) + abs(totals[1])) / max(short_n(short), 1)
+            ok = _same(tab["ig"], ig, 1e-9, 1e-9 * max(abs(ig), 1e-300) + 1e-12 + 1e-13 * mag)
+            if not degenerate:
+                half = abs(up - ig)
+                ok = ok and _same(tab["t"], t, cond_tol, 1e-12 + 1e-13 * mag / max(half, 1e-300)) \
+                    and _same(tab["lower"], lo, cond_tol, cond_tol * half + 1e-12 + 1e-13 * mag) \
+                    and _same(tab["upper"], up, cond_tol, cond_tol * half + 1e-12 + 1e-13 * mag)
+            if len(toks) == 7:
+                ok = ok and _same(toks[5], totals[0], 1e-12, 0.0) and _same(toks[6], totals[1], 1e-12, 0.0)
+            if not ok:
+                run.mismatch(short, dict(tab, totals=list(totals)), dict(ig=ig, t=t, lower=lo, upper=up, extra=toks[5:]))
+        # W: exact statistics, z to 1e-9 (bit-exactness recorded); `c08_w` gets x and m from the harness, `c08_pubw`
+        # forms them itself in Soft64 from the float logs and the totals
+        for idx in (i_w, i_pw):
+            try:
+                c, t2, mn4, se24, zb = out[idx].split()
+                okw = (int(c) == w["count"] and Fraction(t2) == w["t2"] and Fraction(mn4) == w["mn4"]
+                       and Fraction(se24) == w["se24"])
+                zm = unbits(zb)
+            except Exception:
+                okw, zm = False, None
+            if w["count"] >= 1:
+                if not (okw and _same(zab, zm)):
+                    run.mismatch(short, dict(z=zab, count=w["count"], t2=str(w["t2"]), mn4=str(w["mn4"]),
+                                             se24=str(w["se24"])), out[idx])
+                if idx == i_w:
+                    bitexact[1] += 1
+                    if zm is not None and bits(zm) == bits(zab):
+                        bitexact[0] += 1
+            elif not okw:
+                run.mismatch(short, dict(count=0), out[idx])
+        # binary
+        for idx in (i_b, i_pb):
+            if idx is None:
+                continue
+            try:
+                toks = out[idx].split()
                 ig, t, lo, up, var = [unbits(s) for s in toks[:5]]
                 mact = [] if toks[6] == "-" else [int(v) for v in toks[6].split(",")]
                 okb = (int(toks[5]) == len(act) and mact == act and _same(bab["ig"], ig, 1e-9, 1e-12))
@@ -385,7 +490,7 @@ def _flush(run, drv, pending):
             except Exception:
                 okb = False
             if not okb:
-                run.mismatch(short, bab, out[i_b])
+                run.mismatch(short, bab, out[idx])
     prev = run.extra.get("_w_bitexact", [0, 0])
     prev = [prev[0] + bitexact[0], prev[1] + bitexact[1]]
     run.extra["_w_bitexact"] = prev
